@@ -73,8 +73,8 @@ CHECKS = {
    text="About 1 million cases (quick): from_bbox with resolution (low edge x span straddling every tolerance x signed pixel size per axis independently x 6 anchors x tight x 4 tol), with tuple shape, with int shape; 19 anchor spellings x bbox forms; from_geopolygon in own and other CRS (fresh pyproj region) incl. 'utm'; zoom_to(resolution=) on axis-aligned, rotated and sheared boxes. Oracle in fractions.Fraction of the binary64 inputs and of the resulting affine: pixel size and sign as requested; per side uncovered <= tol px and excess < (1+tol) px; pixel edges == anchor fraction (mod pixel) from the CRS origin unless floating/tight; tuple shape => that shape, pixel = span/shape, displacement < 1 px (0 when not snapping).",
    note="R tolerance 1e-9*(|coordinate|+pixel) added to every comparison (at 1e7-pixel coordinates tol=1e-6 cannot be resolved; labelled). 'snapping off starts on the region edge' taken from the docstring for resolution requests.",
    design="4/C08", thorough=True),
- "C10": dict(level="exploration", engine="E1",
-   technique="bounded-exhaustive enumeration of same-CRS GeoBox pairs; paste eligibility predicted from construction parameters; pasted image compared with GDAL nearest warp",
+ "C10": dict(level="exploration", engine="E1+E3a",
+   technique="bounded-exhaustive enumeration of same-CRS GeoBox pairs; paste eligibility predicted from construction parameters; pasted image compared with GDAL nearest warp; stateless thread-schedule exploration (preemption-bounded) of two concurrent warps",
    text="About 4e5 cases (quick), 2.5e6 (thorough): scale classes (integer, near-integer on both sides of stol, fractional, anisotropic) x sub-pixel residues on both sides of ttol x mirroring x shifts covering every placement x 4 tolerance sets; rotations/shear/other-CRS never paste-able; where planning reports paste_ok and read_shrink == 1 the pasted image (planned source region, mirrored per construction, into a nodata destination) must equal rio_reproject(..., 'nearest') pixel for pixel for 8 dtypes incl. int8/bool; for read_shrink > 1 roi_src must be roi_dst scaled by the factor exactly.",
    note="GDAL nearest warp is the independent oracle. Only the 'paste reported => eligible' direction is demanded, as the property states. padding=/align= arguments disable paste and are not covered.",
    design="4/C10", thorough=True),
